@@ -37,12 +37,13 @@ class C19Clauses(Clauses):
         if self.is_decl(op):
             self.snap = registry.snapshot(self.I.L, self.I.conv)
 
-    def scan_b(self, when):
+    def scan_b(self, when, suffix=""):
         bad = registry.double_bindings(self.I.L)
         new = [b for b in bad if b not in self.reported_b]
         for kind, name in new:
             self.reported_b.add((kind, name))
-            self.I.violation("C19.b", "C19/b/double-bound/" + kind, {"name": name, "when": when})
+            self.I.violation("C19.b", "C19/b/double-bound/" + kind + (suffix if kind == "dimension-name-unreported" else ""),
+                             {"name": name, "when": when})
         self.I.count("C19.b.checked")
         return not new
 
@@ -126,7 +127,10 @@ class C19Clauses(Clauses):
                     I.count("C19.b.excused-by-F2")
             out["C19.b"] = "excused-F2"
         else:
-            out["C19.b"] = "ok" if self.scan_b(op["op"]) else "VIOLATED"
+            # a *successful* Dimension.derive of a dimension that already had a name is a case of its own
+            renamed = exc is None and op["op"] == "dim_derive"
+            out["C19.b"] = "ok" if self.scan_b(op["op"], "/renamed-by-successful-derive" if renamed else "") \
+                else "VIOLATED"
         return out
 
     def at_end(self):
